@@ -1431,15 +1431,23 @@ def _handle_note(e, position, part, ongoing, prev_note, doc_order, prev_beam=Non
         tie_types = set(tie.attrib["type"] for tie in ties)
 
         if "stop" in tie_types:
-            tie_prev = ongoing.get(tie_key, None)
+            # several notes of this pitch may have an open tie (in different
+            # voices): the tied one ends where this note starts
+            open_ties = ongoing.get(tie_key, [])
+            tie_prev = next(
+                (n for n in open_ties if n.end.t == position),
+                open_ties[-1] if open_ties else None,
+            )
 
             if tie_prev:
                 note.tie_prev = tie_prev
                 tie_prev.tie_next = note
-                del ongoing[tie_key]
+                open_ties.remove(tie_prev)
+                if not open_ties:
+                    del ongoing[tie_key]
 
         if "start" in tie_types:
-            ongoing[tie_key] = note
+            ongoing.setdefault(tie_key, []).append(note)
 
     notations = e.find("notations")
 
